@@ -334,6 +334,23 @@ def config_digests(seed, nops, only=None):
         env.set_seed(seed)
         trace = run_trace(env, ops)
         out[name] = hashlib.sha256(repr(trace).encode()).hexdigest()
+    # compositions assembled through the Python API, with stochastic observation functions and every stochastic transition
+    # (no shipped configuration observes stochastically)
+    for k in range(8):
+        name = f'composition#{seed * 977 + k}'
+        if only and name not in only:
+            continue
+        try:
+            env = composition_factory(seed * 977 + k)()
+        except Exception:  # noqa
+            continue
+        ops = ops_for(gen.rng_for('C02child', name, seed), max(40, nops // 2))
+        env.set_seed(seed + k)
+        try:
+            trace = run_trace(env, ops)
+        except Exception as e:  # noqa
+            trace = type(e).__name__
+        out[name] = hashlib.sha256(repr(trace).encode()).hexdigest()
     return out
 
 
